@@ -2,6 +2,7 @@ import PyecoreModel.Model.JsonValues
 import PyecoreModel.Lemmas.XmiValues
 import PyecoreModel.Lemmas.Codec
 import PyecoreModel.Lemmas.StoreStep
+import PyecoreModel.Lemmas.JsonDocRefs
 /-!
 # C09 — JSON save then load reproduces the model  (**partial: layer theorems; the composition is decided by the check**)
 
@@ -90,3 +91,42 @@ example : encodeOne false (some (.bool false)) none = .nil ∧ encodeOne false (
   ⟨rfl, rfl⟩
 
 end Json
+
+/-! ## The document layer (`Model/JsonDoc.lean`): a whole containment tree, value by value -/
+namespace JDoc
+open XDoc Xmi
+
+/-- **Value-level round trip.**  For every well-formed object tree — any depth and width, every mix of unset / None /
+    default / empty values, `eClass` written or implied, uuid mode or not, both SERIALIZE_DEFAULT_VALUES settings — what
+    `to_obj` builds from the dictionary `to_dict_from_obj` wrote is the object's normal form: class, every attribute and
+    reference with its effective value in order (attribute values with their JSON kind), the same children under the
+    same containment features in order. -/
+theorem C09_tree_roundtrip (mm : MMX) (o : Opts) (hmm : MMJ mm) (n : SNode JRef) (h : WFJ mm n) (top : Bool) (decl : Nat)
+    (via' : Str) (hv : top = false → via' = n.via) :
+    jDec mm top via' decl (jEnc mm o top decl n) = some (eff mm o top (mapT JRef.tok n)) :=
+  jdec_enc mm o hmm n h top decl via' hv
+
+/-- **Document-level round trip.**  References written as `{"eClass": …, "$ref": token}` and resolved once the tree
+    exists: the whole forest comes back (without uuids — `to_obj` does not hand them to the objects) with every reference
+    on its original target, provided each token resolves in the loaded forest to the path it was written for. -/
+theorem C09_document (mm : MMX) (o : Opts) (hmm : MMJ mm) (render : Path → Str) (parse : Str → Option Path)
+    (roots : List (SNode Path))
+    (hwf : ∀ r ∈ roots, WFG mm (fun _ => True) r)
+    (hvalid : ∀ r ∈ roots, AllRefs (fun p => (nodeAt roots p).isSome = true) r)
+    (hres : ∀ r ∈ roots, AllRefs (fun p =>
+        resolveTok mm o parse (roots.map fun r => eff mm o true (mapT (tokenOf mm o render roots) r))
+          (tokenOf mm o render roots p) = some p) r) :
+    (jEncodeDoc mm o render roots).bind (jDecodeDoc mm o parse) = some (stripUuidL (roots.map (eff mm o true))) :=
+  jdoc_roundtrip mm o hmm render parse roots hwf hvalid hres
+
+/-- … and with fragment addressing (no uuids, no id attributes) nothing is left to assume about resolution. -/
+theorem C09_document_fragment (mm : MMX) (o : Opts) (hmm : MMJ mm) (single : Bool) (roots : List (SNode Path))
+    (hu : o.uuid = false) (hid : ∀ c, ∀ fi ∈ mm.feats c, fi.isId = false)
+    (hsingle : single = true → roots.length = 1)
+    (hwf : ∀ r ∈ roots, WFG mm (fun _ => True) r)
+    (hrefs : ∀ r ∈ roots, AllRefs (fun p => (nodeAt roots p).isSome = true ∧ (∀ s ∈ p.segs, NameOK s.1 ∧ '#' ∉ s.1)) r) :
+    (jEncodeDoc mm o (renderPath single) roots).bind (jDecodeDoc mm o parsePath)
+      = some (stripUuidL (roots.map (eff mm o true))) :=
+  jdoc_roundtrip_fragment mm o hmm single roots hu hid hsingle hwf hrefs
+
+end JDoc
